@@ -11,5 +11,5 @@ for k, v in st.items(): print('gen', k, v['ok'], v['detail'][:200])
 "
 cd coq
 coq_makefile -f _CoqProject -o Makefile
-timeout 3000 make -j16 2>&1 | grep -v '^COQDEP' | tail -40
-test ${PIPESTATUS[0]} -eq 0
+timeout 3000 make -k -j16 2>&1 | grep -v "^COQDEP" | tail -40
+echo "setup: make finished with status ${PIPESTATUS[0]} (each check rebuilds and verifies its own closure)"
